@@ -27,6 +27,11 @@ after searches, `getEdge(i).weight = w`, new polylines, moved nodes, `getEdge(i)
 `WalkAdd`, which is a fact about IEEE-754 that is not proved here (Lean's `Float` is opaque); the float stream of the harness
 runs the same model instantiated at `Float` bit for bit. "The shortest distance" is then the least rounded sum over walks.
 
+A* MODE (`setRoutingMethod(ROUTING_ALGO_ASTAR)`: the queue ordered by `poids + heuristic`) is `Props/C07AStar.lean`: real / continuous / weights = reported
+value for ANY heuristic, optimal for a consistent one, and from the configuration (weights ≥ `astar_wgt` × straight-line length).
+FAMILIES of networks sharing their `Node` / `Edge` objects (`sub_network` kept and used) are `Props/C07Family.lean`: a `shortest_path`
+on shared objects carrying any flags answers as on private objects.
+
 `Route net geo s l g g' t y` (see `Lemmas/GraphBack.lean`) says: `l ++ [t]` is a list of nodes starting at `s` in which
 each consecutive pair is joined by an existing edge travelled in a direction its orientation permits, `y` is the sum of
 those edges' weights, `g` is the concatenation of those edges' polylines, each oriented along the direction of
